@@ -93,15 +93,15 @@ func (c *scriptConn) SetWriteDeadline(t time.Time) error { return nil }
 
 // a case: stream + schedule + reader policy
 type tcase struct {
-	Family string `json:"family"`
-	Stream []byte `json:"-"`
-	Hex    string `json:"stream_hex,omitempty"`
-	Len    int    `json:"stream_len"`
-	Cuts   []int  `json:"chunk_sizes,omitempty"` // chunk sizes; nil = whole
-	Errs   map[int]string `json:"errs,omitempty"` // step index -> error accompanying that step
-	Zero   []int  `json:"zero_reads_before_step,omitempty"`
-	Buf    int    `json:"reader_buf"` // >0 fixed, 0 = random per read (seeded by BufSeed)
-	BufSeed int64 `json:"buf_seed"`
+	Family  string         `json:"family"`
+	Stream  []byte         `json:"-"`
+	Hex     string         `json:"stream_hex,omitempty"`
+	Len     int            `json:"stream_len"`
+	Cuts    []int          `json:"chunk_sizes,omitempty"` // chunk sizes; nil = whole
+	Errs    map[int]string `json:"errs,omitempty"`        // step index -> error accompanying that step
+	Zero    []int          `json:"zero_reads_before_step,omitempty"`
+	Buf     int            `json:"reader_buf"` // >0 fixed, 0 = random per read (seeded by BufSeed)
+	BufSeed int64          `json:"buf_seed"`
 }
 
 func (tc *tcase) steps() []step {
@@ -432,13 +432,16 @@ func main() {
 	// (2) every composition of short streams
 	maxL := run.Pick(13, 17)
 	shorts := [][]byte{
-		record(0x0301, 0, nil, []byte{0x16, 3, 3, 0, 1, 0xaa, 0x17}),                  // header only + next record
-		record(0x0303, 3, []byte{1, 2, 3}, []byte{0x14, 3, 3, 0, 1}),                  // header+body+next
-		record(0x0303, 8, []byte{1, 0, 0, 4, 9, 9, 9, 9}, nil),                        // exactly one record
-		record(0x0304, 6, []byte{1, 2, 3}, nil),                                       // truncated body
-		[]byte{0x16, 3, 1, 0},                                                         // truncated header
-		append([]byte("GET / HTTP/1.1"), 13, 10),                                      // not TLS
+		record(0x0301, 0, nil, []byte{0x16, 3, 3, 0, 1, 0xaa, 0x17}),                   // header only + next record
+		record(0x0303, 3, []byte{1, 2, 3}, []byte{0x14, 3, 3, 0, 1}),                   // header+body+next
+		record(0x0303, 8, []byte{1, 0, 0, 4, 9, 9, 9, 9}, nil),                         // exactly one record
+		record(0x0304, 6, []byte{1, 2, 3}, nil),                                        // truncated body
+		[]byte{0x16, 3, 1, 0},                                                          // truncated header
+		append([]byte("GET / HTTP/1.1"), 13, 10),                                       // not TLS
 		record(0x0302, 2, []byte{7, 7}, []byte{0x16, 3, 3, 0, 2, 5, 5, 0x16, 3, 3, 0}), // three records
+		{0x15, 3, 3, 0, 2, 1, 0, 0x16, 3, 3, 0, 3, 1, 2, 3},                            // warning alert record, then a handshake record
+		{0x17, 3, 1, 0, 0, 0x16, 3, 1, 0, 4, 1, 0, 0, 0},                               // empty application-data record, then a handshake record
+		{0x16, 3, 5, 0, 1, 9, 0x16, 3, 3, 0, 2, 1, 2},                                  // handshake record of an unknown version, then a proper one
 	}
 	comps := 0
 	for _, s := range shorts {
@@ -484,6 +487,23 @@ func main() {
 		for k := 0; k < 4; k++ {
 			emit(&tcase{Family: "real-random", Stream: s, Cuts: randCuts(rng, len(s)), Buf: 0})
 		}
+	}
+
+	// (3b) a non-handshake record (or several) first, then a complete ClientHello-like record:
+	// no ClientHello may be reported, wherever the reads are cut (incl. exactly at the record boundary)
+	for i := 0; i < run.Pick(600, 8000); i++ {
+		var pre []byte
+		for k := 1 + rng.Intn(2); k > 0; k-- {
+			l := rng.Intn(40)
+			r := record(versions[rng.Intn(5)], l, randBytes(rng, l), nil)
+			r[0] = []byte{0x15, 0x17, 0x14, 0x18, 0x00, 0x80}[rng.Intn(6)]
+			pre = append(pre, r...)
+		}
+		L := 50 + rng.Intn(400)
+		hs := record(versions[rng.Intn(5)], L, randBytes(rng, L), randBytes(rng, rng.Intn(20)))
+		s := append(append([]byte{}, pre...), hs...)
+		emit(&tcase{Family: "non-handshake-first", Stream: s, Cuts: []int{len(pre)}, Buf: []int{70000, 0}[rng.Intn(2)]})
+		emit(&tcase{Family: "non-handshake-first", Stream: s, Cuts: randCuts(rng, len(s)), Buf: 0})
 	}
 
 	// (4) every record version and every first byte
@@ -563,8 +583,54 @@ func main() {
 	// (8) transparency under a real TLS server above the wrapper, client chopped
 	tlsRoundTrips(run)
 
+	// (9) connections one after the other (and interleaved): the bytes reported for a connection stay
+	// that connection's bytes after it was closed and other connections were captured ("stale")
+	sequentialConnections(run)
+
 	run.Assume("the scripted net.Conn below the wrapper and the reader above it are the only actors; TLS-level transparency is covered by real handshakes through a chopping conn")
 	run.Finish()
+}
+
+func sequentialConnections(run *verdict.Run) {
+	rng := run.Rand(9)
+	type held struct {
+		view, copy []byte
+		id         int
+	}
+	var keep []held
+	n := run.Pick(3000, 60000)
+	for i := 0; i < n; i++ {
+		L := 20 + rng.Intn(600)
+		s := record(0x0301, L, randBytes(rng, L), randBytes(rng, rng.Intn(30)))
+		w := hack.NewHijackClientHelloConn(&scriptConn{steps: []step{{Data: s, N: len(s)}}})
+		buf := make([]byte, 70000)
+		for {
+			if _, err := w.Read(buf[:1+rng.Intn(700)]); err != nil {
+				break
+			}
+		}
+		got, err := w.GetClientHello()
+		run.Eval(1)
+		if err != nil || !bytes.Equal(got, s[:5+L]) {
+			run.Violation("sequential-wrong-bytes", map[string]any{"connection": i}, "connection %d of a sequence: GetClientHello = %d bytes, %v; want the %d-byte first record", i, len(got), err, 5+L)
+			return
+		}
+		keep = append(keep, held{got, append([]byte{}, got...), i})
+		if rng.Intn(3) != 0 {
+			w.Close() // the connection ends; handlers may still hold the record
+		}
+		if len(keep) > 8 {
+			keep = keep[1:]
+		}
+		for _, h := range keep {
+			if !bytes.Equal(h.view, h.copy) {
+				run.Violation("stale-view-mutated", map[string]any{"connection": h.id, "after_connection": i}, "the ClientHello bytes reported for connection %d were overwritten after it ended, while connection %d was being captured", h.id, i)
+				return
+			}
+		}
+	}
+	run.Add("sequential_connections_checked", int64(n))
+	run.Distinct("sequential")
 }
 
 func headInts(a []int, n int) []int {
